@@ -1320,6 +1320,68 @@ fn memreplay_typed<C: hpbf::CellType>(size: i64, offset: i64, start: i64, end: i
     None
 }
 
+/// Native replay of the query lemmas (L4): `check(i)`, `check_ptr(current_ptr() + k)` and
+/// `set_current_ptr(current_ptr() + k)` against the logical-array reading, from the given geometry.
+fn memreplay_query<C: hpbf::CellType>(size: i64, offset: i64, i: i64, ptr_mode: bool) -> Option<String> {
+    use hpbf::runtime::Memory;
+    let mut mem = Memory::<C>::new();
+    if size > 0 {
+        mem.make_accessible(0, size as isize);
+    }
+    let content = |j: i64| C::from_u64((j as u64).wrapping_mul(2654435761).wrapping_add(1));
+    for j in 0..size {
+        mem.write(j as isize, content(j));
+    }
+    mem.mov(offset as isize);
+    let inside = offset + i >= 0 && offset + i < size;
+    if !ptr_mode {
+        let got = mem.check(i as isize);
+        if got != inside {
+            return Some(format!("check({}) returns {} although logical cell {} is {} the block of {} cells", i, got, offset + i, if inside { "inside" } else { "outside" }, size));
+        }
+        return None;
+    }
+    let p = mem.current_ptr().wrapping_offset(i as isize);
+    let got = mem.check_ptr(p);
+    if got != inside {
+        return Some(format!("check_ptr(current_ptr() + {}) returns {} although logical cell {} is {} the block of {} cells", i, got, offset + i, if inside { "inside" } else { "outside" }, size));
+    }
+    mem.set_current_ptr(p);
+    let want = if inside { content(offset + i).into_u64() } else { 0 };
+    let now = mem.read(0).into_u64();
+    if now != want {
+        return Some(format!("after set_current_ptr(current_ptr() + {}) the current cell reads {} instead of {}", i, now, want));
+    }
+    None
+}
+
+pub fn memreplay_mode(cell_bytes: u32, size: i64, offset: i64, i: i64, ptr_mode: bool) -> i32 {
+    if !(0..=1 << 20).contains(&size) || offset.abs() > 1 << 20 || i.abs() > 1 << 20 {
+        println!("geometry too large to replay natively");
+        return 3;
+    }
+    let r = std::panic::catch_unwind(|| match cell_bytes {
+        1 => memreplay_query::<u8>(size, offset, i, ptr_mode),
+        2 => memreplay_query::<u16>(size, offset, i, ptr_mode),
+        4 => memreplay_query::<u32>(size, offset, i, ptr_mode),
+        _ => memreplay_query::<u64>(size, offset, i, ptr_mode),
+    });
+    match r {
+        Ok(Some(s)) => {
+            println!("REPRODUCED: Memory<u{}> with size {} and pointer at {}: {}", cell_bytes * 8, size, offset, s);
+            1
+        }
+        Ok(None) => {
+            println!("NOT-REPRODUCED: the native Memory behaves as specified on this geometry");
+            0
+        }
+        Err(_) => {
+            println!("REPRODUCED: the native call panicked on this geometry");
+            1
+        }
+    }
+}
+
 pub fn memreplay(cell_bytes: u32, size: i64, offset: i64, start: i64, end: i64) -> i32 {
     if !(0..=1 << 20).contains(&size) || offset.abs() > 1 << 20 || start.abs() > 1 << 20 || end.abs() > 1 << 20 || start >= end {
         println!("geometry too large to replay natively");
